@@ -431,3 +431,82 @@ func (ci *CrashImage) DurableStateBlocks() []*pb.BlockState {
 	}
 	return ci.DurableState.Blocks
 }
+
+// MustSurvive lists the keys that a restart must still serve: keys
+// with an acknowledged upload whose block is still part of the block
+// list (not rotated out, not quarantined). ackedBefore < 0 means all
+// acknowledged uploads; otherwise only those acknowledged before that
+// I/O log position.
+func (w *World) MustSurvive(ackedBefore int) []ObjInst {
+	seen := map[string]bool{}
+	var out []ObjInst
+	for _, u := range w.Uploads {
+		if u.State != "acked" || u.Block == nil || u.Block.Popped || u.Block.Quarantined {
+			continue
+		}
+		if ackedBefore >= 0 && u.AckSeq > ackedBefore {
+			continue
+		}
+		k := w.ModelKey(u.Obj, u.Instance) + "@" + u.Instance
+		if seen[k] {
+			continue
+		}
+		seen[k] = true
+		out = append(out, ObjInst{Obj: u.Obj, Instance: u.Instance})
+	}
+	return out
+}
+
+// CheckSurvivors demands that every listed key is readable (exact
+// bytes) on the restarted world n.
+func (n *World) CheckSurvivors(what string, must []ObjInst) {
+	for _, it := range must {
+		if n.Cfg.Persistent {
+			// Reads may refresh and thereby rotate; released blocks only
+			// become allocatable again after the release syncer ran.
+			n.Drain()
+		}
+		r := n.Get(it.Obj, it.Instance)
+		if !r.Found {
+			n.fatalf("%s: object %d (inst %q) was acknowledged and not evicted by rotation, but after the restart it is not readable: %v", what, it.Obj.ID, it.Instance, r.Err)
+		}
+	}
+	n.CheckMonitors()
+}
+
+// ShutdownRequested reports whether the syncer context was cancelled.
+func (w *World) ShutdownRequested() bool { return w.Sy != nil && w.Sy.Cancelled }
+
+// ShutdownComplete reports whether ProcessBlockPut returned false.
+func (w *World) ShutdownComplete() bool { return w.Sy != nil && w.Sy.ShutdownDone }
+
+// StateWritesSucceeded counts successful state file writes.
+func (w *World) StateWritesSucceeded() int {
+	if w.St.State == nil {
+		return 0
+	}
+	return w.St.State.SuccessCount()
+}
+
+// CheckSurvivorsFresh checks every survivor on its own freshly
+// restarted store (reading one survivor may refresh it and thereby
+// rotate others out, which is normal eviction, not loss).
+func (w *World) CheckSurvivorsFresh(what string, ci *CrashImage, must []ObjInst) {
+	for _, it := range must {
+		n := w.Restart(ci)
+		r := n.Get(it.Obj, it.Instance)
+		// (If the refresh triggered by the read cannot allocate a block,
+		// the failed attempt may itself have rotated the object out: that
+		// survivor is inconclusive, not lost.)
+		if r.EnvError {
+			w.Flags["survivor_check_inconclusive_no_free_block"]++
+			n.Close()
+			continue
+		}
+		if !r.Found {
+			n.fatalf("%s: object %d (inst %q) was acknowledged and not evicted by rotation, but after the restart it is not readable: %v", what, it.Obj.ID, it.Instance, r.Err)
+		}
+		n.CheckMonitors()
+		n.Close()
+	}
+}
